@@ -193,23 +193,32 @@ def decodeFieldLists (s : String) : Option (List (List (Bytes × Bytes))) :=
 
 /-- `c02h3recv <head 0|1> <segs> <fin> <fieldlists> <maxHeaderBytes> <reads>` →
 `status=… hdr=… n=… err=… data=… trailer=…` or `error:<e>` -/
-def laneH3Recv : List String → String
+def laneH3RecvCore (lenient : Bool) : List String → String
   | [hd, segs, fin, fls, maxh, reads] =>
+    -- `lenient`: the stream was cut by a FIN inside a frame header / a skipped frame / before the
+    -- first payload byte of a HEADERS frame: eof and unexpectedEOF are not told apart (C03's subject)
+    let errS (e : Option H3Err) : String :=
+      if lenient && (e == some .eof || e == some .unexpectedEOF) then "eof*" else h3ErrStr e
     match (match hd.toList with | [c] => parseBool01 c | _ => none),
           decodeList segs, parseNetEnd fin, decodeFieldLists fls, maxh.toNat?, decodeNatList reads with
     | some isHead, some segs, some fin, some fls, some maxh, some reads =>
       let s0 : H3Stream := { net := { segs := segs, fin := fin }, remInFrame := 0, parsedTrailer := false,
                              trailer := none, fieldLists := fls, maxHeaderBytes := maxh }
       match s0.readFinalResponse 7 0 with
-      | (.error e, _) => "error:" ++ h3ErrStr (some e)
+      | (.error e, _) => "error:" ++ errS (some e)
       | (.ok h, s1) =>
         let (rs, b') := (H3Body.new isHead h s1).runReads reads
         let lastErr := lastErr rs
         "status=" ++ toString h.status ++ " hdr=" ++ kvStr h.fields ++
-          " n=" ++ encodeNatList (rs.map fun (d, _) => d.length) ++ " err=" ++ h3ErrStr lastErr ++
+          " n=" ++ encodeNatList (rs.map fun (d, _) => d.length) ++ " err=" ++ errS lastErr ++
           " data=" ++ encodeHex (outBytes rs) ++
           " trailer=" ++ kvStr (match b'.str.trailer with | some t => t | none => [])
     | _, _, _, _, _, _ => "bad-op"
+  | _ => "bad-op"
+
+def laneH3Recv : List String → String
+  | [hd, segs, fin, fls, maxh, reads] => laneH3RecvCore false [hd, segs, fin, fls, maxh, reads]
+  | [hd, segs, fin, fls, maxh, reads, "L"] => laneH3RecvCore true [hd, segs, fin, fls, maxh, reads]
   | _ => "bad-op"
 
 def h2ErrStr : Option H2Err → String
